@@ -18,6 +18,17 @@ def c15_programs(seed, tier):
         progs.prog("dropped_inside_pc", [progs.new(), progs.pc(p[0], 30, seed=seed, end="drop")]),
         progs.prog("dropped_two", [progs.new(), progs.pc(p[1], 5, seed=seed), progs.pc(p[2], 5, seed=seed, guid="b"), progs.image([progs.rep("visual", 9)])]),
     ]
+    # files without any binary section: the XML follows the header directly; its length is swept over every residue of the
+    # page payload (stride 3 < the 4-byte checksum) with boundary cuts only
+    for k in (range(0, 1024) if tier == "thorough" else range(0, 1024, 3)):
+        ps.append(progs.prog(f"meta_only{k}", [progs.new("g"), {"op": "coord", "v": "c" * k}, progs.FIN], cuts="coarse"))
+    # a finalized file is changed and finalized again: at every crash point the device holds the first or the second
+    # version, never a mixture; the blob slides the changed text over the page boundaries, the long text spans pages
+    a, b = "EPSG:32632+5783", "EPSG:25832+7837"
+    for k in (range(0, 1020, 2) if tier == "thorough" else range(0, 1020, 7)):
+        ps.append(progs.prog(f"refinalize{k}", [progs.new("g"), progs.blob(k, 1), {"op": "coord", "v": a}, progs.FIN, {"op": "coord", "v": b}, progs.FIN], cuts="coarse"))
+    ps.append(progs.prog("refinalize_long", [progs.new("g"), progs.pc(p[0], 5, seed=seed), {"op": "coord", "v": "A" * 2500}, progs.FIN, {"op": "coord", "v": "B" * 2500}, progs.FIN]))
+    ps.append(progs.prog("refinalize_grow", [progs.new("g"), progs.blob(30, 1), progs.FIN, progs.pc(p[0], 5, seed=seed), progs.FIN, {"op": "coord", "v": "x"}, progs.FIN]))
     n_extra = 40 if tier == "thorough" else 3
     for i in range(n_extra):
         steps = [progs.new(f"g{i}")]
